@@ -26,6 +26,12 @@ CHECKS = {
             "Versions of pending-write items are not compared (code documents readTs).", "3/C04"),
 }
 
+CHECKS.update({
+    "C08": ("fault_enumeration", "deterministic simulation + exhaustive kill-9 images at every persistence event, recovered by the real Open",
+            "For each generated short history every persistence event (mmap create/write/msync/truncate/delete, fd write/fsync/rename/remove, directory sync) is a crash point: the directory as the page cache holds it is copied, re-opened with the real code and compared with the reference model (Open succeeds, nothing that was never written, visible state is a commit-order prefix containing every acknowledged commit, structure, new commits get higher timestamps). Exhaustive over the events of each history; histories are sampled.",
+            "Kill model: page cache survives. mmap stores are reported at record granularity by vhook.IO lines next to the memcpy; a crash inside one memcpy is covered by the torn-tail check C09.", "3/C08"),
+})
+
 PENDING = {}  # property -> reason while not yet implemented
 
 def main():
